@@ -454,6 +454,33 @@ func init() {
 					}
 				}
 			})
+			// the process environment: long transfers under GOMAXPROCS 1, 2, 3 and 48 (code that splits work by
+			// the number of processors is different code for each)
+			envGiants := []giant{{dyn.Int16, dyn.Float64, 2, 70001}, {dyn.Int8, dyn.Int8, 2, 70001}, {dyn.Float32, dyn.Float32, 3, 50001}}
+			for _, procs := range envProcs {
+				if c.Expired() {
+					break
+				}
+				c.WithProcs(procs, func() {
+					c.ParallelFor(len(envGiants), func(gi int) {
+						g := envGiants[gi]
+						total := g.C * g.P
+						for _, k := range []string{"write", "read", "wstriped", "rstriped"} {
+							cs := c01Case{Kind: k, S: tn(g.s), D: tn(g.d), C: g.C, P: g.P, X: 0, L: g.P, Fam: 0}
+							if k == "write" || k == "read" {
+								cs.Lens = []int{total}
+							} else {
+								cs.Lens = make([]int, g.C)
+								for q := range cs.Lens {
+									cs.Lens[q] = g.P - q
+								}
+							}
+							c.Check(cs, true, c01Run(cs))
+						}
+					})
+				})
+			}
+			c.Set("gomaxprocs_values_for_long_transfers", envProcs)
 			c.ParallelFor(len(jobs), func(ji int) {
 				jb := jobs[ji]
 				var n int64
